@@ -803,4 +803,82 @@ def TV.run (s : TV α) : List (Op α) → List (Outcome α) × TV α
     let (os, s'') := TV.run s' rest
     (o :: os, s'')
 
+/-! ## Payloads given by a count
+
+A source of `n` equal elements (`vec![v; n]`, `repeat(v).take(n)`) can be far longer than any
+list a machine materialises — for a zero-sized element type `n = usize::MAX` is a legal `Vec`.
+`stepRep` computes the step of the operation on `List.replicate n v` WITHOUT building that list
+when the operation is rejected; `Lemmas/Vecs.lean` proves it equal to `step` on the replicated
+payload, so the driver can answer such lines. -/
+
+/-- The operations whose payload may be given as a count. -/
+inductive RepShape where
+  /-- `append(&mut other)` -/
+  | append
+  /-- `extend_from_slice(&s)` -/
+  | extendFromSlice
+  /-- `extend_from_slice_copy(&s)` -/
+  | extendFromSliceCopy
+  /-- `extend(iter)`, the iterator announcing `hint` -/
+  | extend (hint : Nat)
+  /-- `from_iter(iter)`, the iterator announcing `hint` -/
+  | fromIter (hint : Nat)
+  deriving Repr, DecidableEq, Inhabited
+
+/-- The operation with an explicit payload. -/
+def RepShape.toOp : RepShape → List α → Op α
+  | .append, l => .append l
+  | .extendFromSlice, l => .extendFromSlice l
+  | .extendFromSliceCopy, l => .extendFromSliceCopy l
+  | .extend hint, l => .extend hint l
+  | .fromIter hint, l => .from .iter hint l
+
+/-- `IV.step (sh.toOp (replicate n v))` without materialising `replicate n v` on rejection. -/
+def IV.stepRep (s : IV α) (sh : RepShape) (n : Nat) (v : α) : Outcome α × IV α :=
+  let len := s.xs.length
+  match sh with
+  | .append =>
+    if len + n ≤ s.cap then (.ok (.items []), { s with xs := s.xs ++ List.replicate n v })
+    else (.panic .capacity, s)
+  | .extendFromSlice | .extendFromSliceCopy =>
+    if len + n ≤ s.cap then (.ok .unit, { s with xs := s.xs ++ List.replicate n v })
+    else (.panic .capacity, s)
+  | .extend _ =>
+    -- pushes until the vector is full
+    if len + n ≤ s.cap then (.ok .unit, { s with xs := s.xs ++ List.replicate n v })
+    else (.panic .capacity, { s with xs := s.xs ++ List.replicate (s.cap - len) v })
+  | .fromIter hint =>
+    if hint ≤ s.cap then
+      if n ≤ s.cap then (.ok .unit, { s with xs := List.replicate n v }) else (.panic .capacity, s)
+    else (.panic .capacity, s)
+
+/-- `TV.step (sh.toOp (replicate n v))`; the payload is only built inside the continuation that
+    runs after a successful `reserve`. (`fromIter` is not offered: `with_capacity` of a huge hint
+    succeeds for zero-sized elements and the loop then really runs `n` times.) -/
+def TV.stepRep (s : TV α) (sh : RepShape) (n : Nat) (v : α) : Outcome α × TV α :=
+  match sh with
+  | .append =>
+    s.afterReserve n fun s' => (.ok (.items []), { s' with xs := s'.xs ++ List.replicate n v })
+  | .extendFromSlice | .extendFromSliceCopy =>
+    s.afterReserve n fun s' => (.ok .unit, { s' with xs := s'.xs ++ List.replicate n v })
+  | .extend hint => s.afterReserve hint fun s' => s'.extendLoop hint 0 (List.replicate n v)
+  | .fromIter _ => (unsupported, s)
+
+/-! ## `usize` arithmetic of the capacity checks
+
+The list model compares `len + n ≤ cap` on unbounded naturals. The code computes on `usize`
+(`U = 2^64`): that is faithful only if the check cannot wrap. -/
+
+/-- `2^64`. -/
+def U : Nat := 2 ^ 64
+
+/-- `assert!(len + n <= CAP)` as release builds evaluate it: the sum wraps. -/
+def capOk_wrapping (len n cap : Nat) : Prop := (len + n) % U ≤ cap
+
+/-- `assert!(n <= CAP - len)` (with `len ≤ CAP`, so the subtraction is exact). -/
+def capOk_checked (len n cap : Nat) : Prop := n ≤ cap - len
+
+instance : Decidable (capOk_wrapping a b c) := by unfold capOk_wrapping; exact inferInstance
+instance : Decidable (capOk_checked a b c) := by unfold capOk_checked; exact inferInstance
+
 end HipVerif.Vecs
